@@ -379,6 +379,11 @@ impl Disk
             // this is a new file
             // we do not write anything unless there is room
             let data_blocks = fimg.chunks.len();
+            // block numbers are 16 bit: a larger count must not wrap around to a small one that happens to fit
+            if data_blocks > u16::MAX as usize {
+                log::error!("not enough contiguous space");
+                return Err(Box::new(Error::NoRoom));
+            }
             let fs_type_usize = fimg.get_ftype();
             let eof_usize = fimg.get_eof();
             if let Some(fs_type) = FileType::from_usize(fs_type_usize) {
